@@ -100,12 +100,13 @@ def build(s):
             rows = traj.iloc[[min(max(t, 0), hi) for t in ticks]]
             if cls == 'Position':
                 cols, sd = ['lat', 'lon', 'alt'], 1.0
+                sd = s.get('meas_sd') or sd
                 data = sim.generate_position_measurements(rows, sd, 11 + k) if ticks else None
             elif cls == 'NedVelocity':
-                cols, sd = ['VN', 'VE', 'VD'], 0.5
+                cols, sd = ['VN', 'VE', 'VD'], s.get('meas_sd') or 0.5
                 data = sim.generate_ned_velocity_measurements(rows, sd, 11 + k) if ticks else None
             else:
-                cols, sd = ['VX', 'VY', 'VZ'], 0.2
+                cols, sd = ['VX', 'VY', 'VZ'], s.get('meas_sd') or 0.2
                 data = sim.generate_body_velocity_measurements(rows, sd, 11 + k) if ticks else None
             if data is None:
                 data = pd.DataFrame(np.empty((0, 3)), columns=cols)
@@ -210,16 +211,55 @@ def _finite(df):
     return bool(np.isfinite(np.asarray(df, dtype=float)).all())
 
 
+def sub_schedule(s, w):
+    """The single call of history `s` on the window w = [first tick, last tick] of its epochs."""
+    ep = [t for t in s['epochs'] if w[0] <= t <= w[1]]
+    c = {k: v for k, v in s.items() if k not in ('windows', 'cats')}
+    c['epochs'] = ep
+    if c.get('inc_epochs'):
+        c['inc_epochs'] = [t for t in c['inc_epochs'] if t in set(ep)]
+        if len(c['inc_epochs']) < 2:
+            del c['inc_epochs']
+    return c
+
+
+def calls_of(s):
+    return [sub_schedule(s, w) for w in s['windows']] if s.get('windows') else [s]
+
+
 def run_impl(s):
-    """Run schedule `s` on the real filter.  Returns the dict of observables."""
+    """Run schedule `s` on the real filter and return the observables.  A schedule with `windows` is a
+    HISTORY: one call per window (sub-span of the epochs), all calls reusing the SAME Measurement and
+    sensor-model objects built once for the whole schedule; the result is dict(status, calls=[...])."""
+    if not s.get('windows'):
+        return run_call(s)
+    try:
+        inp = build(s)
+    except Exception:
+        return dict(status='harness-error', error=traceback.format_exc()[-1500:])
+    shared = {k: inp[k] for k in ('measurements', 'gyro_model', 'accel_model')}
+    calls = [run_call(c, shared) for c in calls_of(s)]
+    bad = [c for c in calls if c['status'] != 'ok']
+    out = dict(status=bad[0]['status'] if bad else 'ok', calls=calls,
+               internal=[x for c in calls for x in c.get('internal', [])][:3])
+    if bad:
+        out['error'] = bad[0].get('error')
+    return out
+
+
+def run_call(s, shared=None):
+    """One call of the real filter on schedule `s` (objects of `shared` replace the freshly built ones)."""
     from pyins import filters, strapdown
     kind = s['filter']
     obs = dict(status='ok')
     try:
         inp = build(s)
+        if shared is not None:
+            inp.update(shared)
     except Exception:
         return dict(status='harness-error', error=traceback.format_exc()[-1500:])
     meas = inp['measurements']
+    psd, vsd = s.get('sd') or (10, 2)
     used = [[] for _ in (meas or [])]
     for k, m in enumerate(meas or []):
         def wrap(orig, log):
@@ -268,7 +308,7 @@ def run_impl(s):
             with Watchdog(codes, budget, WALL_SECONDS):
                 strapdown.Integrator.integrate = integrate
                 try:
-                    res = filters.run_feedback_filter(inp['initial'], 10, 2, 1, 5, inp['increments'], **kw)
+                    res = filters.run_feedback_filter(inp['initial'], psd, vsd, 1, 5, inp['increments'], **kw)
                 finally:
                     strapdown.Integrator.integrate = orig_integrate
         else:
@@ -277,7 +317,7 @@ def run_impl(s):
             if s.get('increments'):
                 kw['increments'] = inp['inc_passed']
             with Watchdog(codes, budget, WALL_SECONDS):
-                res = filters.run_feedforward_filter(nominal, computed, 10, 2, 1, 5, **kw)
+                res = filters.run_feedforward_filter(nominal, computed, psd, vsd, 1, 5, **kw)
     except NonTermination as e:
         return dict(status='nonterminating', error=str(e))
     except Exception as e:
@@ -285,6 +325,8 @@ def run_impl(s):
                     where=traceback.format_exc()[-800:], internal=internal[:3])
     finally:
         filters._compute_error_propagation_matrices = orig_prop
+        for m in meas or []:              # the objects may be reused by the next call of a history
+            m.__dict__.pop('compute_matrices', None)
     obs['internal'] = internal[:3]
     try:
         names = [c for c, _ in s['sensors']] if s['meas_mode'] == 'list' else []
@@ -332,7 +374,18 @@ def _strictly_increasing(l):
 
 
 def property_failures(s, obs):
-    """C09 / C10 statements on the observables of the implementation.  [] = holds."""
+    """C09 / C10 statements on the observables of the implementation.  [] = holds.  For a history the
+    statements are checked for EVERY call against [start, end) of THAT call."""
+    if s.get('windows') and 'calls' in obs:
+        out = []
+        for k, (c, o) in enumerate(zip(calls_of(s), obs['calls'])):
+            out += [f"call {k + 1} of {len(obs['calls'])} on [{c['epochs'][0]}, {c['epochs'][-1]}] reusing the "
+                    f"same Measurement objects: {m}" for m in call_failures(c, o)]
+        return out
+    return call_failures(s, obs)
+
+
+def call_failures(s, obs):
     kind = s['filter']
     if obs['status'] == 'harness-error':
         return []
@@ -502,6 +555,21 @@ def gen_schedule(rng, kind, nmax=24):
     models = rng.choices([0, 1, 2], [5, 3, 2])[0]
     s = dict(filter=kind, epochs=ep, sensors=sensors, meas_mode=mode, step=step, alt=alt, models=models,
              lever=lever)
+    if rng.random() < 0.08:
+        # cold start: huge initial uncertainty x very precise fixes (prior / measurement variance >> 1e16)
+        s['sd'] = [rng.choice([1e6, 1e7]), rng.choice([1e2, 1e3, 1e4])]
+        s['meas_sd'] = rng.choice([1e-3, 1e-2])
+        cats.append('magnitudes:extreme')
+    if sensors and len(ep) >= 5 and rng.random() < 0.15:
+        # a history of calls on different spans that reuse the same Measurement objects
+        a, b = sorted(rng.sample(range(1, len(ep) - 1), 2))
+        w = [[ep[0], ep[a]], [ep[0], ep[-1]], [ep[b], ep[-1]]]
+        if rng.random() < 0.3:
+            w.append([ep[a - 1], ep[b + 1]])
+        if rng.random() < 0.3:
+            rng.shuffle(w)
+        s['windows'] = w
+        cats.append(f'history:{len(w)} calls')
     if sensors:
         s['values'] = []
         for c, ts in sensors:
@@ -567,7 +635,8 @@ def key_of(s):
     return (s['filter'], tuple(t - t0 for t in s['epochs']),
             tuple((c, tuple(t - t0 for t in ts)) for c, ts in s['sensors']), s['meas_mode'], s['step'],
             s['alt'], s['models'], s.get('increments'), bool(s.get('lever')),
-            tuple(t - t0 for t in s.get('inc_epochs') or ()), tuple(s.get('values') or ()))
+            tuple(t - t0 for t in s.get('inc_epochs') or ()), tuple(s.get('values') or ()),
+            tuple((a - t0, b - t0) for a, b in s.get('windows') or ()), tuple(s.get('sd') or ()), s.get('meas_sd'))
 
 
 # --------------------------------------------------------------------------------------
@@ -723,7 +792,16 @@ def valid(s):
         return False          # ValueError by contract: scale/misalignment states need `increments`
     if s.get('inc_epochs') is not None and (len(s['inc_epochs']) < 2 or not set(s['inc_epochs']) <= set(s['epochs'])):
         return False
+    if s.get('windows') is not None and (not s['windows'] or any(len(c['epochs']) < 2 for c in calls_of(s))):
+        return False
     return len(s['epochs']) >= 2
+
+
+def model_pairs(s, obs):
+    """(single-call schedule, its observables) for every call of `s` that returned."""
+    if s.get('windows') and 'calls' in obs:
+        return [(c, o) for c, o in zip(calls_of(s), obs['calls']) if o['status'] == 'ok']
+    return [(s, obs)] if obs['status'] == 'ok' else []
 
 
 def shrink(s, pred=None, budget=160):
@@ -769,6 +847,19 @@ def shrink(s, pred=None, budget=160):
                     c['inc_epochs'] = [t_ for t_ in c['inc_epochs'] if t_ != gone]
                     if len(c['inc_epochs']) < 2:
                         continue
+                cands.append(c)
+        if s.get('windows'):
+            c = json.loads(json.dumps(s))
+            del c['windows']
+            cands.append(c)
+            for j in range(len(s['windows'])):
+                c = json.loads(json.dumps(s))
+                del c['windows'][j]
+                cands.append(c)
+        for fld in ('sd', 'meas_sd'):
+            if s.get(fld) is not None:
+                c = json.loads(json.dumps(s))
+                del c[fld]
                 cands.append(c)
         if s.get('values') and any(v != 'random' for v in s['values']):
             c = json.loads(json.dumps(s))
@@ -823,33 +914,66 @@ def covered_functions(kind):
     return f
 
 
-# executable lines that may stay unreached: (filter kind, function, substring of the source line) -> reason
-ALLOWED_UNREACHED = {
-    ('ff', 'filters.run_feedforward_filter', 'raise ValueError('):
-        "argument checks: the harness always passes equally indexed trajectories (the property's precondition) "
-        "and passes `increments` whenever scale/misalignment states are modelled",
-    ('ff', 'filters.run_feedforward_filter', '"`trajectory_nominal` and `trajectory` must have the same time index")'):
-        "message line of the index-mismatch ValueError",
-    ('ff', 'filters.run_feedforward_filter', '"`increments` must be provided")'):
-        "message line of the missing-increments ValueError",
-    ('ff', 'measurements.NedVelocity.compute_matrices', 'mat_nb = transform.mat_from_rph(pva[RPH_COLS])'):
-        "lever-arm term needs the rate_x/y/z columns, which the feedforward filter's interpolated pva never has",
-    ('ff', 'measurements.NedVelocity.compute_matrices', 'z += mat_nb @ np.cross(pva[RATE_COLS], self.imu_to_antenna_b)'):
-        "same: unreachable from run_feedforward_filter (no angular-rate columns in its pva)",
-}
+# Executable lines that may stay unreached are determined STRUCTURALLY (independent of how the source is
+# written, so a behaviour-preserving refactoring does not change the verdict):
+R_ARGCHECK = ("argument-check `raise ValueError` of run_feedforward_filter: the harness always passes equally "
+              "indexed trajectories (the property's precondition) and passes `increments` whenever "
+              "scale/misalignment states are modelled")
+R_RATE = ("NedVelocity lever-arm term: executed only for a pva that carries the rate_x/y/z columns (probe: "
+          "executed with them, not executed without them); the feedforward filter's interpolated pva never has them")
+
+
+def allowed_unreached(kind):
+    """{function name: {line: reason}} for the feedforward check; empty for the feedback check."""
+    if kind != 'ff':
+        return {}
+    import ast
+    import inspect
+    import textwrap
+    import linecov
+    import pandas as pd
+    from pyins import filters, measurements, error_model
+    out = {}
+    # (1) the two ValueError argument checks of run_feedforward_filter (exactly two are expected)
+    fn = filters.run_feedforward_filter
+    src, start = inspect.getsourcelines(fn)
+    tree = ast.parse(textwrap.dedent(''.join(src)))
+    raises = [n for n in ast.walk(tree) if isinstance(n, ast.Raise) and isinstance(n.exc, ast.Call)
+              and getattr(n.exc.func, 'id', None) == 'ValueError']
+    if len(raises) == 2:
+        out['filters.run_feedforward_filter'] = {
+            start + ln - 1: R_ARGCHECK for n in raises for ln in range(n.lineno, n.end_lineno + 1)}
+    # (2) lines of NedVelocity.compute_matrices that run only when the pva has angular-rate columns
+    traj, _ = base()
+    row = traj.iloc[600]
+    data = pd.DataFrame([row[['VN', 'VE', 'VD']].values], index=[row.name], columns=['VN', 'VE', 'VD'])
+    m = measurements.NedVelocity(data, 0.5, np.array([0.5, 0.1, -0.2]))
+    em = error_model.InsErrorModel(True)
+    hit = []
+    for pva in (pd.concat([row, pd.Series([0.01, 0.0, 0.02], index=['rate_x', 'rate_y', 'rate_z'])]), row):
+        cov = linecov.LineCoverage({'f': measurements.NedVelocity.compute_matrices})
+        with cov:
+            m.compute_matrices(row.name, pva, em)
+        hit.append(set(cov.hit['f']))
+    out['measurements.NedVelocity.compute_matrices'] = {ln: R_RATE for ln in hit[0] - hit[1]}
+    return out
 
 
 def code_line_report(kind, hits):
-    """(summary, unexpected unreached lines, allowed unreached lines) of the accumulated line hits."""
+    """(summary, unexpected unreached lines, [(allowed unreached line, reason)]) of the accumulated line hits."""
     import linecov
     cov = linecov.LineCoverage(covered_functions(kind))
     cov.merge(hits)
     summ, missing = cov.report(allow=())
+    allow = allowed_unreached(kind)
     bad, allowed = [], []
     for m in missing:
-        name, _, text = m.split(':', 2)
-        why = [r for (k, n, sub_), r in ALLOWED_UNREACHED.items() if k == kind and n == name and sub_ in text]
-        (allowed if why else bad).append(m)
+        name, ln, _ = m.split(':', 2)
+        why = allow.get(name, {}).get(int(ln))
+        if why:
+            allowed.append((m, why))
+        else:
+            bad.append(m)
     return summ, bad, allowed
 
 
@@ -873,8 +997,21 @@ def corpus(kind):
                     sensors=[['BodyVelocity', [512, 520, 528, 550, 607]], ['Position', [500, 516, 544, 545, 590]],
                              ['NedVelocity', [513, 529, 530, 560, 561, 575, 608]]],
                     values=['zero', 'const', 'blocks']))
+    # a history: short window, then the whole span, then a late window, all on the same Measurement objects
+    out.append(dict(filter=kind, epochs=ep, meas_mode='list', step=16, alt=True, models=1, lever=False,
+                    sensors=[['Position', [515, 530, 545, 560, 575, 590, 605]], ['NedVelocity', [513, 528, 562, 600]]],
+                    windows=[[512, 544], [512, 608], [560, 608]]))
+    # cold start: huge initial sd x mm..cm fixes arriving between IMU epochs after seconds of propagation
+    long_ep = [256 + 64 * i for i in range(97)]
+    pos_t = [256 + 2565, 256 + 3072, 256 + 3082, 256 + 5003]
+    for (psd, vsd, msd), alt in zip([(1e6, 1e2, 1e-3), (1e7, 1e3, 1e-2), (1e6, 1e4, 1e-3), (1e7, 1e3, 1e-3)],
+                                    [True, False, False, True]):
+        out.append(dict(filter=kind, epochs=long_ep, meas_mode='list', step=512, alt=alt, models=0, lever=False,
+                        sensors=[['Position', pos_t], ['NedVelocity', [t + 307 for t in pos_t]]],
+                        sd=[psd, vsd], meas_sd=msd))
     for i, s in enumerate(out):
-        s['cats'] = ['corpus']
+        s['cats'] = ['corpus'] + (['history:3 calls'] if s.get('windows') else []) + \
+            (['magnitudes:extreme'] if s.get('sd') else [])
         if kind == 'ff':
             s['increments'] = bool(s['models'] == 2 or i == 1)
     if kind == 'ff':
@@ -940,8 +1077,9 @@ def correspondence(r, kind, schedules, label, max_report=3):
         dist['imu-epochs:' + ('<=4' if len(s['epochs']) <= 4 else '5-12' if len(s['epochs']) <= 12 else '13+')] += 1
         nst = sum(len(t_) for _, t_ in s['sensors'])
         r.case(key_of(s), sample=dict(schedule={k: v for k, v in s.items() if k != 'cats'},
-                                      observed={k: obs.get(k) for k in ('traj', 'innov', 'tables')}
-                                      if obs['status'] == 'ok' else obs),
+                                      observed=[{k: o.get(k) for k in ('traj', 'innov', 'tables')}
+                                                for o in obs.get('calls', [obs])]
+                                      if obs['status'] == 'ok' else {k: v for k, v in obs.items() if k != 'calls'}),
                nontrivial=len(s['epochs']) > 2 or nst > 0)
         if obs['status'] == 'harness-error':
             r.broken('harness', 'could not build inputs', obs['error'])
@@ -958,9 +1096,8 @@ def correspondence(r, kind, schedules, label, max_report=3):
             if dist['internal-not-finite'] <= 2:
                 r.broken('support', f'{label}: ' + obs['internal'][0] + ' handed to the covariance propagation',
                          json.dumps(dict(schedule={k: v for k, v in s.items() if k != 'cats'})))
-        if obs['status'] == 'ok':
-            ok_pairs.append((s, obs))
-        else:
+        ok_pairs += [(c, o, s) for c, o in model_pairs(s, obs)]
+        if obs['status'] != 'ok':
             if nviol <= max_report:
                 r.broken('correspondence', f'{label}: implementation {obs["status"]}',
                          json.dumps(dict(schedule={k: v for k, v in s.items() if k != 'cats'},
@@ -969,14 +1106,14 @@ def correspondence(r, kind, schedules, label, max_report=3):
     nbad = 0
     for lo in range(0, len(ok_pairs), 400):
         shard = ok_pairs[lo:lo + 400]
-        ok, res, out = coq_compare(kind, shard, f"{r.pid.lower()}_{label.split()[0].replace('-', '_')}_{lo}")
+        ok, res, out = coq_compare(kind, [x[:2] for x in shard], f"{r.pid.lower()}_{label.split()[0].replace('-', '_')}_{lo}")
         if not ok:
             r.broken('correspondence', f'{label}: coqc failed on the case file', out[-2000:])
             continue
         for i, codes in sorted(res.items()):
             nbad += 1
             if nbad <= max_report:
-                s, obs = shard[i]
+                s = shard[i][2]           # the whole history when the case is one call of a history
                 small = shrink(s, lambda c: bool(differs(c)), budget=30) if nbad == 1 and not r.violations else s
                 r.broken('correspondence', f"{label}: model and implementation differ in "
                          + ", ".join(DIFF_NAMES.get(c, str(c)) for c in codes),
@@ -1025,10 +1162,8 @@ def run_check(r, kind, props_file):
         correspondence(r, kind, sub, 'small-sample')
     r.coverage['distribution'] = dict(sorted(r.coverage['distribution'].items()))
     summ, bad, allowed = code_line_report(kind, r.coverage.pop('_hits', {}))
-    r.coverage['code_lines'] = dict(functions=summ, allowed_unreached=[
-        dict(line=a, reason=[w for (k, n, s_), w in ALLOWED_UNREACHED.items()
-                             if k == kind and n == a.split(':', 2)[0] and s_ in a.split(':', 2)[2]][0])
-        for a in allowed])
+    r.coverage['code_lines'] = dict(functions=summ,
+                                    allowed_unreached=[dict(line=a, reason=w) for a, w in allowed])
     r.log("code lines executed by the generated schedules: " + ", ".join(
         f"{n} {v['executed']}/{v['executable']}" for n, v in summ.items())
         + f"; {len(allowed)} allowed unreached, {len(bad)} unexpected unreached")
@@ -1063,10 +1198,10 @@ def differs(s):
     obs = run_impl(s)
     if obs['status'] != 'ok':
         return [f"implementation {obs['status']}"]
-    ok, res, out = coq_compare(s['filter'], [(s, obs)], 'one_' + s['filter'])
+    ok, res, out = coq_compare(s['filter'], model_pairs(s, obs), 'one_' + s['filter'])
     if not ok:
         return ['coqc failed: ' + out[-300:]]
-    return [DIFF_NAMES.get(c, str(c)) for c in res.get(0, [])]
+    return sorted({DIFF_NAMES.get(c, str(c)) for codes in res.values() for c in codes})
 
 
 def replay_one(s):
@@ -1075,21 +1210,25 @@ def replay_one(s):
     print(f"schedule for pyins.filters.{name} (time unit = 1/{DEN} s):")
     print("  ", json.dumps({k: v for k, v in s.items() if k != 'cats'}))
     obs = run_impl(s)
-    print("implementation:")
-    for k, v in obs.items():
-        print(f"    {k}: {v}")
-    print("model (Coq, vm_compute) event trace:")
-    print(model_trace(s))
     rc = 0
-    if obs['status'] == 'ok':
-        ok, res, out = coq_compare(s['filter'], [(s, obs)], 'one_' + s['filter'])
-        if not ok:
-            print("coqc failed on the comparison:", out[-500:])
-        elif res.get(0):
-            print("MODEL AND IMPLEMENTATION DIFFER in:", ", ".join(DIFF_NAMES.get(c, str(c)) for c in res[0]))
-            rc = 1
-        else:
-            print("model and implementation agree on every compared observable")
+    calls = calls_of(s)
+    for k, (c, o) in enumerate(zip(calls, obs.get('calls', [obs]))):
+        if len(calls) > 1:
+            print(f"--- call {k + 1} of {len(calls)} (same Measurement / sensor-model objects), epochs {c['epochs']}")
+        print("implementation:")
+        for kk, v in o.items():
+            print(f"    {kk}: {v}")
+        print("model (Coq, vm_compute) event trace:")
+        print(model_trace(c))
+        if o['status'] == 'ok':
+            ok, res, out = coq_compare(c['filter'], [(c, o)], 'one_' + c['filter'])
+            if not ok:
+                print("coqc failed on the comparison:", out[-500:])
+            elif res.get(0):
+                print("MODEL AND IMPLEMENTATION DIFFER in:", ", ".join(DIFF_NAMES.get(x, str(x)) for x in res[0]))
+                rc = 1
+            else:
+                print("model and implementation agree on every compared observable")
     fails = property_failures(s, obs)
     if fails:
         print("PROPERTY FAILS:")
